@@ -178,9 +178,9 @@ def run_shard(tier, seed, shard, nshards, tally: Tally, scale=1.0):
                     tally.aborted["timeout"] = tally.aborted.get("timeout", 0) + 1  # inconclusive, never a violation
                     continue
                 if got[0] == "CRASH" or tuple(got) != tuple(fp):
-                    # An alarm must come with an input that shows it again. The scenario is run twice more alone in fresh
-                    # interpreters (same hash seed), and the whole batch once more (a run may depend on the runs made
-                    # before it in the same process: that is process state too).
+                    # Classify before reporting: the scenario is run twice more alone in fresh interpreters (same hash
+                    # seed) and the whole batch once more (a run may depend on the runs made before it in the same
+                    # process: that is process state too; its replay is the batch prefix).
                     norm = (lambda g: [g[0], ""]) if fp[1] == "" else (lambda g: g)
                     alone = [norm(run_subprocess([sc], hs, junk)[0]) for _ in range(2)]
                     if res_again is None:
@@ -196,9 +196,9 @@ def run_shard(tier, seed, shard, nshards, tally: Tally, scale=1.0):
                         got = in_batch
                         case["batch_prefix"] = scs[: i + 1]
                     else:
+                        # seen once, not again: still a run that depended on something other than configuration and seed
+                        sig = "C14/cross-process/differs-once-not-on-rerun"
                         tally.count("cross_process_mismatch_not_reproduced")
-                        tally.label("cross_process_mismatch_not_reproduced")
-                        continue
                     v = Violation(PROP, sig, f"engines {engines}: a fresh interpreter with PYTHONHASHSEED={hs} produced digest/summary {got} but the in-process run produced {list(fp)}")
                     if not any(x.signature == sig for x in fs):
                         fs.append(Failure(PROP, sig, case, [v], "cross"))
